@@ -16,7 +16,7 @@ CONSTANTS
   Ports = {0, 5552}
   IpcNames = {"pipe"}
   Extras = {""}
-  Defects = {"assign_empty_ignored", "ipc_name_clash"}
+  Defects = {"assign_empty_ignored"}
 INIT Init
 NEXT Next
 INVARIANT TypeOK
